@@ -112,7 +112,14 @@ def s_string_create(eng, fr, ins, st, name, argv):
     return eng.new_array(st.mem, nm, ('i', 8), cap + 1, tag='heap')
 
 
+def s_false(eng, fr, ins, st, name, argv):
+    return z3.BitVecVal(0, 1)
+
+
 COMMON_STUBS = {
+    # harness nodes carry no parameters: parameter_equals(key, "<some non-null JSON>") is false (the JSON comparison itself is rapidjson's)
+    '_ZNK7awkward7Content16parameter_equalsERKNSt7__cxx1112basic_stringIcSt11char_traitsIcESaIcEEES8_': s_false,
+    '_ZN7awkward4util16parameter_equalsE*': s_false,
     '_ZNSt7__cxx1112basic_stringIcSt11char_traitsIcESaIcEE9_M_createERmm': s_string_create,
     'strlen': s_strlen,
     '__dynamic_cast': s_dynamic_cast,
